@@ -223,6 +223,8 @@ def make_summary(eng, spec):
 
     def summ(e, args, kw):
         fv = spec_funcval(e, spec)
+        if getattr(spec, "__effectful__", False):
+            return e.call(fv, list(args), dict(kw))
         r = e.merged(lambda: e.call(fv, list(args), dict(kw)), e.merge_key('summary:' + spec.__name__, args, kw), e.val_terms(args))
         # representation independence: callers only learn the JS-level value of numbers
         rr = e.refine(r) if r.kind == "val" else r
@@ -307,6 +309,8 @@ def a_array_own(e, args):
     o, k = e.refine(args[0]), e.refine(args[1])
     f = z3.Function("array_own", ValSeq, z3.StringSort(), z3.BoolSort())
     e.p.uf_used.add("array_own")
+    if k.kind != "str":
+        raise PyExc("TypeError", None, "array_own: key is not a string")
     elems = e.refine(e.getattr(o, "_elements"))
     if elems.kind != "ref":
         raise Unsupported(f"array_own: _elements is {elems.kind}")
@@ -317,6 +321,8 @@ def a_array_get_own(e, args):
     o, k = e.refine(args[0]), e.refine(args[1])
     f = z3.Function("array_get_own", ValSeq, z3.StringSort(), Val)
     e.p.uf_used.add("array_get_own")
+    if k.kind != "str":
+        raise PyExc("TypeError", None, "array_get_own: key is not a string")
     elems = e.refine(e.getattr(o, "_elements"))
     if elems.kind != "ref":
         raise Unsupported(f"array_get_own: _elements is {elems.kind}")
